@@ -890,11 +890,12 @@ where
     fn extend<T: IntoIterator<Item = (I, P)>>(&mut self, iter: T) {
         let iter = iter.into_iter();
         let (min, max) = iter.size_hint();
+        // reserve only what the iterator guarantees to yield: the upper
+        // bound may be arbitrarily far above it
+        self.reserve(min);
         let rebuild = if let Some(max) = max {
-            self.reserve(max);
             better_to_rebuild(self.len(), max)
         } else if min != 0 {
-            self.reserve(min);
             better_to_rebuild(self.len(), min)
         } else {
             false
@@ -960,7 +961,7 @@ fn better_to_rebuild(len1: usize, len2: usize) -> bool {
         return false;
     }
 
-    2 * (len1 + len2) < len2 * log2_fast(len1)
+    len1.saturating_add(len2).saturating_mul(2) < len2.saturating_mul(log2_fast(len1))
 }
 
 #[cfg(feature = "serde")]
